@@ -23,7 +23,7 @@ func init() {
 			if tier == "quick" {
 				return 72
 			}
-			return 300
+			return 900
 		},
 		Batch:            8,
 		Workers:          8,
